@@ -170,6 +170,27 @@ def run(ctx, eng):
             sorted(names)), not missing,
             'handlers for %s that re-raise as ProtocolError (missing: %s)'
             % (sorted(names), sorted(missing) or '-'), node=f2.node)
+    # every frame handed to the connection has had its body parsed: the
+    # facts the handlers rely on about frame fields (a PUSH_PROMISE never
+    # promises stream 0, a PRIORITY frame has its five bytes, ...) are
+    # established by hyperframe's parse_body and by nothing else
+    fnx = m.func('frame_buffer.FrameBuffer.__next__')
+    unparsed = 0
+    handed = 0
+    for p in eng.I.run(fnx):
+        if p.exit == 'raise':
+            continue
+        handed += 1
+        if not any(e.kind == 'call' and any(
+                str(n).endswith('parse_body') for n in e.names)
+                for e in p.events):
+            unparsed += 1
+    ctx.ob('ORD.parse-body', fnx.qual, 'no frame leaves the buffer unparsed',
+           handed > 0 and unparsed == 0, '%d of %d returning paths do not '
+           'call parse_body (zero-length frames of types that need a body '
+           'would keep their constructor defaults)' % (unparsed, handed)
+           if unparsed else 'parse_body on all %d returning paths' % handed,
+           node=fnx.node)
     # RecursionError: FrameBuffer.__next__ calls itself once per swallowed
     # frame; the depth is bounded only if every swallowed frame is counted
     from .c27 import check_backlog
